@@ -86,27 +86,28 @@ type vector struct {
 	quick bool
 }
 
+// Powers are listed in the order of the validator set (descending power, ties by address).
 // Quick vectors come first so that the first failing vector of a defect is the same in both tiers.
 func family() []vector {
 	m3 := maxTotal / 3
 	return []vector{
-		{[]int64{1}, true},                       // total 1
-		{[]int64{1, 1}, true},                    // total 2
-		{[]int64{1, 2}, true},                    // total 3 (3 | total)
-		{[]int64{1, 1, 1}, true},                 // total 3
-		{[]int64{1, 1, 2}, true},                 // total 4
-		{[]int64{1, 2, 3}, true},                 // total 6
-		{[]int64{m3, m3, maxTotal - 2*m3}, true}, // total == MaxTotalVotingPower exactly
-		{[]int64{1, 1, 1, 1}, true},              // total 4
-		{[]int64{2, 2, 2, 3}, true},              // total 9
+		{[]int64{1}, true},          // total 1
+		{[]int64{1, 1}, true},       // total 2
+		{[]int64{2, 1}, true},       // total 3 (3 | total)
+		{[]int64{1, 1, 1}, true},    // total 3
+		{[]int64{2, 1, 1}, true},    // total 4
+		{[]int64{3, 2, 1}, true},    // total 6
+		{[]int64{m3, m3, m3}, true}, // total == MaxTotalVotingPower exactly (2^60-1 = 3*m3)
+		{[]int64{1, 1, 1, 1}, true}, // total 4
+		{[]int64{3, 2, 2, 2}, true}, // total 9
 		// thorough only
-		{[]int64{1, 2, 2}, false},                        // total 5
-		{[]int64{3, 3, 3}, false},                        // total 9
-		{[]int64{m3, m3, maxTotal - 1 - 2*m3}, false},    // total == MaxTotalVotingPower-1
-		{[]int64{1, 1, 1, 3}, false},                     // total 6
-		{[]int64{1, 2, 3, 4}, false},                     // total 10
-		{[]int64{1, 1, 1, 97}, false},                    // total 100
-		{[]int64{1 << 58, 1 << 58, 1 << 58, maxTotal - 3*(1<<58)}, false}, // total == Max, 4 validators
+		{[]int64{2, 2, 1}, false},                                                // total 5
+		{[]int64{3, 3, 3}, false},                                                // total 9
+		{[]int64{m3, m3, m3 - 1}, false},                                         // total == MaxTotalVotingPower-1
+		{[]int64{3, 1, 1, 1}, false},                                             // total 6
+		{[]int64{4, 3, 2, 1}, false},                                             // total 10
+		{[]int64{97, 1, 1, 1}, false},                                            // total 100
+		{[]int64{1 << 58, 1 << 58, 1 << 58, maxTotal - 3*(1<<58)}, false},        // total == Max, 4 validators
 	}
 }
 
@@ -167,6 +168,7 @@ type universe struct {
 	outsider keyPair
 	toks     []*token
 	byName   map[string]*token
+	valSet   *types.ValidatorSet
 }
 
 func repoAddr(a address) common.Address { return common.BytesToAddress(a[:]) }
@@ -248,9 +250,9 @@ var validKinds = []struct {
 
 var invalidKinds = []string{"!oob", "!mis", "!imp", "!out", "!fake", "!h", "!r", "!t", "!chain", "!sig", "!64"}
 
-func newUniverse(n int, typ kproto.SignedMsgType) *universe {
-	u := &universe{n: n, typ: typ, byName: map[string]*token{}}
-	u.keys, u.outsider = validatorKeys(n)
+func newUniverse(keys []keyPair, outsider keyPair, typ kproto.SignedMsgType) *universe {
+	n := len(keys)
+	u := &universe{n: n, typ: typ, byName: map[string]*token{}, keys: keys, outsider: outsider}
 	add := func(t *token) {
 		if t.vote != nil {
 			t.counts, t.cv, t.cb = classify(u.keys, typ, t.vote)
